@@ -4,7 +4,7 @@
   non-vacuity examples. Model: Oryx/Model/RtmpPkt.lean = the packet layer of rtmp/rtmp.go after the
   repair of F20 (`fix: rtmp: a call packet decoded without a command object has none`).
 -/
-import Oryx.Proofs.RtmpPktRT
+import Oryx.Proofs.RtmpPktTxn
 namespace Oryx.Props.C03
 open Oryx Oryx.Res Oryx.Amf0 Oryx.Rtmp Oryx.RtmpPkt
 
@@ -103,6 +103,137 @@ theorem F20_regression :
     unmarshal .createStreamRes [2, 0, 7, 95, 114, 101, 115, 117, 108, 116, 0, 0x40, 0, 0, 0, 0, 0, 0, 0] = err .generic := by
   constructor <;> rfl
 
+/-! ### dispatch on the peer -/
+
+/-- **Encode, wire, decode.** `WritePacket(p, streamID)` on one endpoint with any output chunk size ≥ 1;
+`ReadMessage` + `DecodeMessage` on the peer whose reader follows that chunk size and holds no partial
+message: exactly the written bytes are consumed (C01's `write_read_one`), the message has `p`'s `Type()`,
+stream id and marshalled payload, and it is decoded as the library's dispatch table says
+(`Arrives`: control packets, connect, publish as themselves with equal fields; a `_result` as the
+response type of the outstanding request with its id, which is consumed; createStream, play and every
+other command as a generic call) to a packet that re-marshals to the same payload. The writer's own
+table has the request registered. -/
+theorem wire_dispatch (p q : Packet) (tbl tbl' : TxnTable) (hp : p.WF) (harr : Arrives tbl p q tbl')
+    (streamID : Nat) (hlen : p.marshal.length < 16777216)
+    (c : Nat) (hc : 1 ≤ c) (st : Reader) (hic : st.inChunk = c) (hclean : Clean st) (rest : Bytes) (wtbl : TxnTable) :
+    ∃ W m st', writePacket c wtbl p streamID = (ok W, onPacketWritten wtbl p) ∧
+      readMessage st (W ++ rest) = ok ((m, st'), rest) ∧ Clean st' ∧
+      m.hdr.ty = p.msgType ∧ m.hdr.sid = streamID % 4294967296 ∧ m.hdr.ts = 0 ∧ m.payload = p.marshal ∧
+      dispatch tbl m = ok (q, tbl') ∧ q.marshal = p.marshal :=
+  RtmpPkt.wire_dispatch p q tbl tbl' hp harr streamID hlen c hc st hic hclean rest wtbl
+
+/-- The same without the transport: any message of `p`'s type carrying `p`'s bytes. -/
+theorem dispatch_marshalled (p q : Packet) (tbl tbl' : TxnTable) (hp : p.WF) (harr : Arrives tbl p q tbl')
+    (m : Msg) (hty : m.hdr.ty = p.msgType) (hpl : m.payload = p.marshal) :
+    dispatch tbl m = ok (q, tbl') ∧ q.marshal = p.marshal := by
+  obtain ⟨hd, hm⟩ := dispatchSt_arrives tbl tbl' p q hp harr m hty hpl
+  exact ⟨by simp [dispatch, hd], hm⟩
+
+/-- The rows of the table for the library's own request names: `play`, `createStream` and `closeStream`
+REQUESTS are generic calls on the peer (identical bytes); only connect and publish have a typed arm. -/
+theorem requests_arrive_as_calls (tbl : TxnTable) (tid : UInt64) (obj : Option Val) (sn : Bytes) :
+    Arrives tbl (.createStream ⟨Gen.Rtmp.commandCreateStreamBytes, tid, obj⟩) (.call ⟨Gen.Rtmp.commandCreateStreamBytes, tid, obj⟩ none) tbl ∧
+    Arrives tbl (.play ⟨Gen.Rtmp.commandPlayBytes, tid, obj⟩ sn) (.call ⟨Gen.Rtmp.commandPlayBytes, tid, obj⟩ (some (.str sn))) tbl ∧
+    Arrives tbl (.call ⟨Gen.Rtmp.commandCloseStreamBytes, tid, obj⟩ none) (.call ⟨Gen.Rtmp.commandCloseStreamBytes, tid, obj⟩ none) tbl :=
+  ⟨.createStream _ (show Gen.Rtmp.parseCommandArm Gen.Rtmp.commandCreateStreamBytes = _ by decide),
+   .play _ _ (show Gen.Rtmp.parseCommandArm Gen.Rtmp.commandPlayBytes = _ by decide),
+   .call _ _ (show Gen.Rtmp.parseCommandArm Gen.Rtmp.commandCloseStreamBytes = _ by decide)⟩
+
+/-! ### transactions -/
+
+/-- **A `_result` is matched exactly once.** For EVERY history `ops` of packets written and messages
+decoded by an endpoint (arbitrary packets, arbitrary transaction ids, arbitrary — also malformed —
+messages), and every message `m` that answers id `tid` (an AMF command/data message starting with
+`_result`/`_error` and a number):
+* the table is a function of the history: looking `tid` up finds exactly the request still awaiting its
+  response (`awaiting`: the latest connect/createStream written with that id, a positive id and a
+  non-empty name, unless a response with that id was decoded since);
+* without such a request decoding `m` is an error — never a guess;
+* with one, `m` is decoded — if its body decodes at all — as the response type of THAT request, the
+  request is consumed, and any further response with that id is refused. -/
+theorem result_once (ops : List Op) (m : Msg) (tid : UInt64) (hm : responseTid m = some tid) :
+    (run ops).find tid = awaiting tid ops ∧
+    (awaiting tid ops = none → dispatch (run ops) m = err .generic) ∧
+    (∀ req, awaiting tid ops = some req →
+      (∀ p tbl', dispatch (run ops) m = ok (p, tbl') → respKind req = some p.kind) ∧
+      awaiting tid (ops ++ [.recv m]) = none ∧
+      (∀ m', responseTid m' = some tid → dispatch (run (ops ++ [.recv m])) m' = err .generic)) := by
+  have hnone : ∀ (ops : List Op) (m : Msg), responseTid m = some tid → awaiting tid ops = none →
+      dispatch (run ops) m = err .generic := by
+    intro ops m hm h
+    exact dispatch_err_of_fst ((dispatchSt_response (run ops) m tid hm).1 (by rw [run_find]; exact h))
+  refine ⟨run_find ops tid, hnone ops m hm, ?_⟩
+  intro req hreq
+  have hfind : (run ops).find tid = some req := by rw [run_find]; exact hreq
+  have hcons : awaiting tid (ops ++ [.recv m]) = none := by
+    have hpos := find_some_pos (run_allPos ops) hfind
+    simp [awaiting, List.foldl_append, awaitStep, hm, numEq_self_of_pos hpos]
+  refine ⟨?_, hcons, fun m' hm' => hnone _ m' hm' hcons⟩
+  intro p tbl' hd
+  have := fst_of_dispatch_ok hd
+  exact (dispatchSt_response (run ops) m tid hm).2 req hfind p (by rw [this])
+
+/-- The domain made explicit: a request is registered only with a transaction id `> 0` (id 0 is RTMP's
+"no reply expected"; a NaN is never equal to itself). With `tid ≤ 0` or NaN nothing is registered, no
+history makes such an id outstanding, and a response carrying it is always an error. -/
+theorem tid_nonpositive_unregistered (tid : UInt64) (h : isPositive tid = false) :
+    (∀ tbl p n, registers p = some (tid, n) → onPacketWritten tbl p = tbl) ∧
+    (∀ ops, awaiting tid ops = none) ∧
+    (∀ ops m, responseTid m = some tid → dispatch (run ops) m = err .generic) := by
+  have haw : ∀ ops, awaiting tid ops = none := fun ops => by
+    rw [← run_find]; exact find_none_of_not_pos (run_allPos ops) h
+  refine ⟨?_, haw, fun ops m hm => (result_once ops m tid hm).2.1 (haw ops)⟩
+  intro tbl p n hr
+  simp [onPacketWritten, hr, h]
+
+/-! ### typed waits -/
+
+/-- `ExpectPacket` returns the FIRST message whose decoded kind is the requested one, with its packet,
+provided the messages before it decode (control and command traffic of other kinds is skipped, the
+transaction table threaded through); a message before it that does not decode ends the wait with that
+error; if nothing matches the wait ends with the transport's end-of-stream error.
+`ExpectMessage` returns the first message of one of the requested types (any message when none is
+requested) without decoding anything. -/
+theorem expect_first (k : Kind) (pre : List Msg) (tbl tbl1 tbl2 : TxnTable) (hs : Skips k tbl pre tbl1)
+    (m : Msg) (post : List Msg) :
+    (∀ p, dispatchSt tbl1 m = (ok p, tbl2) → p.kind = k →
+      expectPacket k tbl (pre ++ m :: post) = (ok (m, p, post), tbl2)) ∧
+    (∀ e, dispatchSt tbl1 m = (err e, tbl2) → expectPacket k tbl (pre ++ m :: post) = (err e, tbl2)) ∧
+    expectPacket k tbl pre = (err .eof, tbl1) ∧
+    (∀ types : List Nat, types ≠ [] → (∀ x ∈ pre, x.hdr.ty ∉ types) →
+      (m.hdr.ty ∈ types → expectMessage types (pre ++ m :: post) = ok (m, post)) ∧
+      expectMessage types pre = err .eof) ∧
+    expectMessage [] (m :: post) = ok (m, post) :=
+  ⟨fun p hd hk => expectPacket_first k pre tbl tbl1 tbl2 hs m p hd hk post,
+   fun e hd => expectPacket_error k pre tbl tbl1 tbl2 hs m e hd post,
+   expectPacket_none k pre tbl tbl1 hs,
+   fun types hne hpre => ⟨fun hm => expectMessage_first types hne pre hpre m hm post, expectMessage_none types hne pre hpre⟩,
+   expectMessage_any m post⟩
+
+/-- Neither wait can panic. -/
+theorem expect_never_panics (k : Kind) (types : List Nat) (tbl : TxnTable) (msgs : List Msg) :
+    (expectPacket k tbl msgs).1 ≠ .panic ∧ expectMessage types msgs ≠ .panic :=
+  ⟨expectPacket_ne_panic k msgs tbl, expectMessage_ne_panic types msgs⟩
+
+/-- The whole property, as one proposition. -/
+def C03_statement : Prop :=
+  (∀ p : Packet, p.marshal.length = p.size) ∧
+  (∀ p : Packet, p.WF → unmarshal p.kind p.marshal = ok p) ∧
+  (∀ (p q : Packet) (tbl tbl' : TxnTable), p.WF → Arrives tbl p q tbl' → ∀ m : Msg, m.hdr.ty = p.msgType →
+      m.payload = p.marshal → dispatch tbl m = ok (q, tbl') ∧ q.marshal = p.marshal) ∧
+  (∀ (ops : List Op) (m : Msg) (tid : UInt64), responseTid m = some tid →
+      (awaiting tid ops = none → dispatch (run ops) m = err .generic) ∧
+      (∀ req, awaiting tid ops = some req → ∀ m', responseTid m' = some tid →
+        dispatch (run (ops ++ [.recv m])) m' = err .generic)) ∧
+  (∀ (k : Kind) (pre : List Msg) (tbl tbl1 tbl2 : TxnTable), Skips k tbl pre tbl1 → ∀ (m : Msg) (p : Packet) (post : List Msg),
+      dispatchSt tbl1 m = (ok p, tbl2) → p.kind = k → expectPacket k tbl (pre ++ m :: post) = (ok (m, p, post), tbl2))
+
+/-- C03 holds in full for the repaired code (over the wire: `wire_dispatch`). -/
+theorem C03_holds : C03_statement :=
+  ⟨marshal_len, unmarshal_marshal, fun p q tbl tbl' hp ha m ht hpl => dispatch_marshalled p q tbl tbl' hp ha m ht hpl,
+   fun ops m tid hm => ⟨(result_once ops m tid hm).2.1, fun req hr m' hm' => ((result_once ops m tid hm).2.2 req hr).2.2 m' hm'⟩,
+   fun k pre tbl tbl1 tbl2 hs m p post hd hk => expectPacket_first k pre tbl tbl1 tbl2 hs m p hd hk post⟩
+
 /-! ### non-vacuity -/
 
 /-- A connect request with a nested command object and optional arguments. -/
@@ -122,5 +253,35 @@ example : exCall.WF := by decide
 example : (Packet.userControl 0x1a 255 0).WF ∧ (Packet.userControl 3 0xFFFFFFFF 0x80000000).WF ∧ (Packet.userControl 0xFFFF 7 0).WF := by decide
 example : exConnect.marshal.length = 61 := by rw [marshal_len]; decide
 example : unmarshal .connect exConnect.marshal = ok exConnect := unmarshal_marshal exConnect (by decide)
+
+/-- A createStream request with id 2, its response, a publish. -/
+def exCs : Packet := .createStream { name := Gen.Rtmp.commandCreateStreamBytes, tid := 0x4000000000000000, obj := some .null }
+def exRes : Packet := .createStreamRes { name := Gen.Rtmp.commandResultBytes, tid := 0x4000000000000000, obj := some .null } 0x3FF0000000000000
+def exResMsg : Msg := { hdr := { ty := 20 }, payload := exRes.marshal }
+def exCtl : Msg := { hdr := { ty := 5 }, payload := [0, 0, 16, 0] }
+
+example : exCs.WF ∧ exRes.WF := by decide
+-- transport hypotheses of `wire_dispatch`: a fresh reader is clean; the default chunk size is ≥ 1
+example : Clean {} := by intro k ch h; simp [Chunks.get] at h
+example : exConnect.marshal.length < 16777216 := by rw [marshal_len]; decide
+-- the positive / non-positive split of transaction ids
+example : isPositive one = true ∧ isPositive 0x7FF0000000000000 = true ∧ isPositive 1 = true := by decide
+example : isPositive 0 = false ∧ isPositive 0x8000000000000000 = false ∧ isPositive 0xBFF0000000000000 = false ∧
+    isPositive 0x7FF8000000000000 = false ∧ isPositive 0xFFF8000000000001 = false := by decide
+example : numEq 0x7FF8000000000000 0x7FF8000000000000 = false ∧ numEq 0 0x8000000000000000 = true := by decide
+-- a history: createStream(2) written, its _result decoded once, then refused
+example : registers exCs = some (0x4000000000000000, Gen.Rtmp.commandCreateStreamBytes) := by decide
+example : responseTid exResMsg = some 0x4000000000000000 := by decide
+example : awaiting 0x4000000000000000 [.send exCs] = some Gen.Rtmp.commandCreateStreamBytes := by decide
+example : respKind Gen.Rtmp.commandCreateStreamBytes = some .createStreamRes := by decide
+example : dispatch (run [.send exCs]) exResMsg = ok (exRes, []) := by decide
+example : dispatch (run [.send exCs, .recv exResMsg]) exResMsg = err .generic := by decide
+example : Arrives (run [.send exCs]) exRes exRes ((run [.send exCs]).erase 0x4000000000000000) :=
+  .createStreamRes _ _ Gen.Rtmp.commandCreateStreamBytes (by decide) (by decide) (by decide)
+-- a typed wait that skips a control message and a publish before the response
+example : Skips .createStreamRes (run [.send exCs]) [exCtl, { hdr := { ty := 20 }, payload := exPublish.marshal }] (run [.send exCs]) :=
+  .cons _ (run [.send exCs]) _ _ _ (.winAck 4096) (by decide) (by decide)
+    (.cons _ (run [.send exCs]) _ _ _ exPublish (by decide) (by decide) (.nil _))
+example : ∀ x ∈ [exCtl], x.hdr.ty ∉ [20, 18] := by decide
 
 end Oryx.Props.C03
